@@ -101,7 +101,7 @@ pub fn explore(plan: &Plan, f: &PointFn) -> Acc {
         if case.generic {
             acc.inc("cases_generic_kinematics");
         }
-        let base = match route(&case, &case.base_kin()) {
+        let base = match route_via(&case, &case.base_kin()) {
             Ok(r) => r,
             Err(e) => {
                 acc.violate(
@@ -113,6 +113,7 @@ pub fn explore(plan: &Plan, f: &PointFn) -> Acc {
                 return;
             }
         };
+        acc.hist("construction_path", base.via);
         let mut orbit_routed: Vec<Routed> = vec![];
         if plan.basis_orbit && case.nl >= 2 {
             let bk = case.base_kin();
@@ -127,7 +128,7 @@ pub fn explore(plan: &Plan, f: &PointFn) -> Acc {
                 ks = (0..keep).map(|i| ks[(i as f64 * step) as usize].clone()).collect();
             }
             for k in ks {
-                if let Ok(r) = route(&case, &k) {
+                if let Ok(r) = route_via(&case, &k) {
                     orbit_routed.push(r);
                 }
             }
@@ -160,7 +161,7 @@ pub fn explore(plan: &Plan, f: &PointFn) -> Acc {
             acc.inc("sectors");
             let mut routings: Vec<Routed> = vec![];
             if plan.tropical_routing {
-                if let Ok(r) = route(&case, &case.tropical_kin(order)) {
+                if let Ok(r) = route_via(&case, &case.tropical_kin(order)) {
                     routings.push(r);
                 }
             }
@@ -895,21 +896,7 @@ pub fn c16b(ctx: &Ctx) -> Acc {
         let f = move |case: &Case, r: &Routed, po: &PointObs, _nd: usize, acc: &mut Acc| {
             acc.inc("evaluations");
             acc.inc("c16b_corner_points");
-            if let Outcome::Ok(s) = &po.out {
-                let mut nan = s.u.is_nan();
-                if let Some(m) = &s.meta {
-                    nan |= m.decomp.determinant.is_nan()
-                        || m.decomp.inverse.iter().chain(&m.decomp.q_transposed).chain(&m.decomp.q_transposed_inverse).any(|x| x.is_nan());
-                }
-                if nan {
-                    acc.violate(
-                        pkey("C16", "sample-ok-with-nan-decomposition", case, &po.x),
-                        "NaN decomposition never Ok through a sample when the stability test is on",
-                        format!("sample returned Ok with a NaN decomposition (u = {:e}) although matrix_stability_test = {:?}", s.u, st.stability),
-                        point_case(case, &r.kin, &po.x, &st, json!({"prop": "C16"})),
-                    );
-                }
-            }
+            c16b_point(case, r, po, &st, acc);
         };
         let acc = explore(&plan, &f);
         total.merge(acc);
@@ -917,25 +904,26 @@ pub fn c16b(ctx: &Ctx) -> Acc {
     total
 }
 
-/// C12 binding: the lambda of a sample is the quantile function of (dod, designated coordinate)
-pub fn c12_binding(ctx: &Ctx) -> Acc {
-    let tier = ctx.tier;
-    let mut cases: Vec<CaseSpec> = fam_for(tier, "C12");
-    cases.extend(dl_grid_cases().into_iter().filter(|c| c.g.dim <= 4 && c.g.loop_number(c.g.full()) <= 3));
+pub fn c16b_point(case: &Case, r: &Routed, po: &PointObs, st: &Settings, acc: &mut Acc) {
+    if let Outcome::Ok(s) = &po.out {
+        let mut nan = s.u.is_nan();
+        if let Some(m) = &s.meta {
+            nan |= m.decomp.determinant.is_nan()
+                || m.decomp.inverse.iter().chain(&m.decomp.q_transposed).chain(&m.decomp.q_transposed_inverse).any(|x| x.is_nan());
+        }
+        if nan {
+            acc.violate(
+                pkey("C16", "sample-ok-with-nan-decomposition", case, &po.x),
+                "NaN decomposition never Ok through a sample when the stability test is on",
+                format!("sample returned Ok with a NaN decomposition (u = {:e}) although matrix_stability_test = {:?}", s.u, st.stability),
+                point_case(case, &r.kin, &po.x, st, json!({"prop": "C16"})),
+            );
+        }
+    }
+}
+
+pub fn c12_binding_point(case: &Case, r: &Routed, po: &PointObs, _nd: usize, acc: &mut Acc) {
     let st = Settings::META;
-    let plan = Plan {
-        cases,
-        k: 1,
-        roles: Roles { u: false, xi: false, p: true, ab: false, xi_moderate: true, xi_ladder: false },
-        settings: st,
-        full_product_cap: 0,
-        sector_all_up_to: 0,
-        sector_stride: 100000,
-        tropical_routing: false,
-        points_per_case: 100,
-        basis_orbit: false,
-    };
-    let f = |case: &Case, r: &Routed, po: &PointObs, _nd: usize, acc: &mut Acc| {
         let rr = match &po.rr {
             Some(rr) => rr,
             None => return,
@@ -980,7 +968,27 @@ pub fn c12_binding(ctx: &Ctx) -> Acc {
             }
             _ => {}
         }
+    }
+
+/// C12 binding: the lambda of a sample is the quantile function of (dod, designated coordinate)
+pub fn c12_binding(ctx: &Ctx) -> Acc {
+    let tier = ctx.tier;
+    let mut cases: Vec<CaseSpec> = fam_for(tier, "C12");
+    cases.extend(dl_grid_cases().into_iter().filter(|c| c.g.dim <= 4 && c.g.loop_number(c.g.full()) <= 3));
+    let st = Settings::META;
+    let plan = Plan {
+        cases,
+        k: 1,
+        roles: Roles { u: false, xi: false, p: true, ab: false, xi_moderate: true, xi_ladder: false },
+        settings: st,
+        full_product_cap: 0,
+        sector_all_up_to: 0,
+        sector_stride: 100000,
+        tropical_routing: false,
+        points_per_case: 100,
+        basis_orbit: false,
     };
+    let f = |case: &Case, r: &Routed, po: &PointObs, nd: usize, acc: &mut Acc| c12_binding_point(case, r, po, nd, acc);
     explore(&plan, &f)
 }
 
@@ -1181,7 +1189,7 @@ pub fn orbit_pass(ctx: &Ctx) -> Acc {
             .into_iter()
             .filter_map(|(n, k)| {
                 debug_assert!(k.conserves());
-                route(&case, &k).ok().map(|r| (n, r))
+                route_via(&case, &k).ok().map(|r| (n, r))
             })
             .collect();
         if routed.is_empty() {
@@ -1203,6 +1211,21 @@ pub fn orbit_pass(ctx: &Ctx) -> Acc {
                 break;
             }
             for (x, _) in sector_points(&case, order, 1, &roles) {
+                // one sampler object reused with DIFFERENT edge data: the base routing's sampler is sampled with its own
+                // shifts and then with the shifts of every orbit element that has the same signature (loop-momentum offsets)
+                if prop == "C09" {
+                    let base_r = &routed[0].1;
+                    for (_, r) in routed.iter().skip(1) {
+                        if r.kin.sig != base_r.kin.sig {
+                            continue;
+                        }
+                        let _ = base_r.sampler.sample(&x, &base_r.ed, &st);
+                        let (out, log) = base_r.sampler.sample_logged(&x, &r.ed, &st);
+                        let po = PointObs { x: x.clone(), out, log, rr: oracle::refsampler::run(&case.rt, &x) };
+                        acc.inc("orbit_same_sampler_reuse");
+                        c09_point(&case, r, &po, 0, acc);
+                    }
+                }
                 let mut reference: Option<(f64, f64, f64, Vec<u64>, f64, f64)> = None;
                 for (name, r) in &routed {
                     let po = observe_point(&case, r, &x, &st);
@@ -1303,6 +1326,25 @@ pub fn replay_point(ctx: &Ctx, v: &Value) -> i32 {
         "C11" => c11_point(&case, &r, &po, 0, &mut acc),
         "C13" => c13_point(&case, &r, &po, 0, &mut acc),
         "C02" => c02_point(&case, &r, &po, 0, &mut acc),
+        "C12" => c12_binding_point(&case, &r, &po, 0, &mut acc),
+        "C16" => c16b_point(&case, &r, &po, &st, &mut acc),
+        "C18" => {
+            let d = case.g.dim;
+            let want = outcome_bits(&r.sampler.sample(&x, &r.ed, &st));
+            for (name, s2) in [
+                ("json", Sampler::from_json_str(d, &r.sampler.to_json_string())),
+                ("cbor", Sampler::from_cbor(d, &r.sampler.to_cbor())),
+            ] {
+                match s2 {
+                    Ok(s2) => {
+                        if outcome_bits(&s2.sample(&x, &r.ed, &st)) != want {
+                            acc.violate("replay".into(), "restored sampler produces bit-identical samples", format!("sampler restored through {name} samples differently"), json!({}));
+                        }
+                    }
+                    Err(e) => acc.violate("replay".into(), "deserialises", format!("{name}: {e}"), json!({})),
+                }
+            }
+        }
         _ => {}
     }
     for v in &acc.violations {
